@@ -218,4 +218,20 @@ EncRangeLine(flags) == LET t == Trim(flags) IN Groups6(Pad6(t))     \* trailing 
 EmittedFlags(ts, line) ==
     LET d == DedupSeq(ts) IN
     LET on == SelectSeq(d, LAMBDA t : Dl(t) = line) IN [i \in 1..Len(on) |-> Rg(on[i])]
+
+\* the spec's own rangeMappings writer: one bit field per generated line up to the last
+\* line that holds a range token; <<>> (key absent) when no token is a range
+MaxLine(ts) == IF ts = <<>> THEN 0 ELSE Dl(ts[Len(ts)])
+HasRange(ts) == \E i \in DOMAIN ts : Rg(ts[i]) = 1
+LastRangeLine(ts) == CHOOSE m \in {Dl(ts[i]) : i \in {j \in DOMAIN ts : Rg(ts[j]) = 1}} :
+                        \A i \in DOMAIN ts : Rg(ts[i]) = 1 => Dl(ts[i]) <= m
+RangeText(ts) ==
+    IF ~HasRange(ts) THEN <<>>
+    ELSE << FoldLeft(LAMBDA acc, ln : acc \o (IF ln > 0 THEN <<SEMI>> ELSE <<>>) \o EncRangeLine(EmittedFlags(ts, ln)),
+                     <<>>, [i \in 1..(LastRangeLine(ts) + 1) |-> i - 1]) >>
+
+\* token equality as far as it is observable: original position only for tokens with a source
+TokEq(a, b) == /\ Dl(a) = Dl(b) /\ Dc(a) = Dc(b) /\ Src(a) = Src(b) /\ Nm(a) = Nm(b) /\ Rg(a) = Rg(b)
+               /\ (Src(a) # -1 => Sl(a) = Sl(b) /\ Sc(a) = Sc(b))
+ToksEq(as, bs) == Len(as) = Len(bs) /\ \A i \in DOMAIN as : TokEq(as[i], bs[i])
 =============================================================================
